@@ -392,7 +392,42 @@ def rule_status_lattice(ctx):
         stages = iter_pipeline(sf, t)
         if not least or any(st[0].startswith(("truncating:", "unknown:", "subset:")) for st in stages[1:]):
             fold_ok = False
-    if has_max and fold_ok:
+    # explicit maximum loop: `let mut res = LEAST; for (_, status) in cols { if status > res { res = status } } res`
+    loop_max = False
+    rets_ = [e_ for e_ in (sf.expr_of_rvalue(rv) for _, _, rv in ret_aggregates(sf))]
+    if len(rets_) == 1 and rets_[0][0] == "local":
+        acc = rets_[0][1]
+        defs_ = sf.def_exprs(acc)
+        lp = [l for l in sf.loops()]
+        if lp:
+            h_, body_, _ = min(lp, key=lambda l: len(l[1]))
+            init = [e_ for b_, s_, e_ in defs_ if b_ not in body_]
+            upd = [(b_, s_, e_) for b_, s_, e_ in defs_ if b_ in body_]
+            least = len(init) == 1 and init[0][0] == "agg" and str(init[0][1]).endswith("Status::" + order[0])
+            good_upd = bool(upd)
+            for b_, s_, e_ in upd:
+                # the assignment is taken exactly when the element compares greater than the accumulator
+                okg = False
+                for g in guards_of(sf, b_):
+                    ge = g[3]
+                    truth = g[2] in ([None], [1])
+                    if ge[0] == "call" and str(ge[3]).rsplit("::", 1)[-1] in ("gt", "lt", "ge", "le") and "PartialOrd" in str(ge[3]):
+                        opn = str(ge[3]).rsplit("::", 1)[-1]
+                        x_, y_ = peel(ge[2][0]), peel(ge[2][1])
+                        while x_[0] in ("ref", "deref"):
+                            x_ = peel(x_[1])
+                        while y_[0] in ("ref", "deref"):
+                            y_ = peel(y_[1])
+                        x_acc = x_[0] == "local" and x_[1] == acc
+                        y_acc = y_[0] == "local" and y_[1] == acc
+                        if y_acc and not x_acc and ((opn == "gt" and truth) or (opn == "le" and not truth)):
+                            okg = True
+                        if x_acc and not y_acc and ((opn == "lt" and truth) or (opn == "ge" and not truth)):
+                            okg = True
+                if not okg:
+                    good_upd = False
+            loop_max = least and good_upd
+    if (has_max and fold_ok) or loop_max:
         ctx.ok(site(sf, 0), "status() is the maximum over the columns")
     else:
         ctx.violation("pattern::MultiPattern::status|max|1", site(sf, 0), "status() is not the maximum of the column statuses")
